@@ -53,3 +53,14 @@ Definition part_runtime (c : list nat * obs) : bool :=
   | Some [] => true
   | _ => runtime_ok (snd c)
   end.
+
+(* ---- exactness of the reported families (chain clause), on the current tables ---- *)
+Definition part_chain (c : list nat * obs) : bool :=
+  match o_true (snd c) with
+  | Some tr => chain_ok _ hit_tbl Src_db (fst c) Src_keys tr
+  | None => false
+  end.
+
+(* the predicate the correspondence run evaluates: P_C18 and the chain clause *)
+Definition holds_C18_full (c : list nat * obs) : bool :=
+  P_C18_full _ hit_tbl Src_db Src_keys Src_all Src_vendors (fst c) (snd c).
